@@ -92,6 +92,14 @@ def buildIncoming (kind : String) (tid : Nat) (sign corrupt : String) : Option B
     | ["2", k] => (b1.addIntegrity MsgFam.refHashes (keyCreds k) .sha256).toOption.map (·, true)
     | _ => some (b1, false)
   let bytes := b2.build
+  let bogus : Option (Nat × Nat) :=
+    if corrupt == "2" then some (0x0008, 4) else if corrupt == "3" then some (0x001C, 12)
+    else if corrupt == "4" then some (0x001C, 36) else none
+  match bogus, signed with
+  | some (ty, n), false =>
+    let ext := bytes ++ enc16 ty ++ enc16 n ++ List.replicate n 0x5a
+    some (setLen ext (ext.length - 20))
+  | _, _ =>
   if corrupt == "1" && signed then
     let i := bytes.length - 3
     some (bytes.take i ++ [(bytes.getD i 0) ^^^ 0x40] ++ bytes.drop (i + 1))
